@@ -48,6 +48,37 @@ fixed(['C17'], '2c7ec70', 'SoPlexBase::operator= / copy constructor left _optimi
 
 fixed(['C17'], 'a80c076', 'the pricer and ratio tester cloned into a copied solver kept the Tolerances object of the source (SPxSolverBase::setTolerances did not reach them): changing tolerances of the source changed the next solve of the copy')
 
+fixed(['C20'], 'c338617', 'SoPlex_objValueRationalString computed the buffer length from the still empty string: one-byte result without NUL')
+fixed(['C20'], '0f0c2cf', 'SoPlex_changeObjRational/changeLhsRational/changeRhsRational leaked the temporary Rational array on every call')
+fixed(['C20'], '68bc027', 'SoPlex_getRowVectorRational assigned the row to a default-constructed SVectorRational (null storage): crash on every non-empty row')
+fixed(['C20'], '1aff202', 'SoPlex_getPrimalRationalString / SoPlex_objValueRationalString returned new[] memory that the C caller is told to free()')
+fixed(['C20', 'C03'], '4ccde39', 'after an exact solve ending INFEASIBLE the primal/reduced-cost vectors kept the auxiliary column of the feasibility problem: getPrimalReal/getRedCostReal wrote one element past a numCols() array')
+fixed(['C11'], 'cc48e99', 'CLUFactorRational::vSolveRight4update2/3 inverted the zero test for the extra right-hand sides: second and third solution vectors came back as zero')
+fixed(['C10'], '2019935', 'CLUFactor::vSolveUpdateRight (ETA updates) wrote ridx[n] speculatively: one int past a dim-sized index array when the result is dense')
+fixed(['C18'], 'ae8167c', 'MPSInput::readLine used strtok(): concurrent readFile/readBasisFile calls on MPS data in different threads corrupted each other (TSan race, wrong LPs, crashes)')
+fixed(['C12', 'C13'], '22b70e2', 'ratFromString scaled by pow(10, e) in double: 1e-1 and 1e23 inexact, SIGFPE in GMP for exponents above 308')
+fixed(['C12'], 'ef4b3bf', 'ratFromString threw on "-0.0" (all digits stripped): LP reader kept the default value 1, MPS reader the previous field')
+fixed(['C12'], '366b48d', 'MPS bounds reader treated MI as an integer bound type: column reported integer and its upper bound reset to infinity')
+fixed(['C12'], '044d28b', 'writeDualFileReal("*.mps") dereferenced the null tolerances of the temporary dual LP')
+fixed(['C12'], '8a316dc', 'real MPS writer glued an 8-character column/set name to the following row name: file not readable / different columns')
+fixed(['C12'], '63587e0', 'real MPS writer truncated values >= 1e54 (%.15lf into char[81]): 1e100 read back as 1e69')
+fixed(['C13'], 'fdd779e', 'MPSInput::readLine looped forever at the end of an MPS/basis file without ENDATA')
+fixed(['C13'], '126ff32', 'rational MPS reader passed a null name to NameSet for a ROWS line with one field')
+fixed(['C13'], '77103b4', 'SPxLPBase::read() tested an uninitialised char for an empty input (valgrind)')
+fixed(['C13', 'C15', 'C14', 'C20'], '43c980e', 'readFile/readBasisFile/loadSettingsFile let strict_fstream::Exception (missing or unreadable file) and zstr::Exception (corrupt gzip, read error) escape instead of returning false')
+fixed(['C13'], '2e7e740', 'LP reader copied numbers, column names and row names into 8192-byte stack buffers: stack-buffer-overflow for longer tokens')
+fixed(['C13'], 'b2af63e', 'MPS reader stored duplicate (column,row) coefficients twice: later heap-buffer-overflow in SPxMainSM::duplicateRows')
+fixed(['C19'], '3fda21e', 'Array::insert (4 overloads) inserted at begin()+i-1')
+fixed(['C19'], 'b5bb3ac', 'SVSetBase::operator= (both) copied a set of empty vectors as an empty set (tested memSize instead of num)')
+fixed(['C19'], '60c74be', 'SVSetBase::add(nkey[], svec[], n) never wrote nkey[0], looped ~2^32 times for n == 0')
+fixed(['C19'], 'c086888', 'LPRowSetBase/LPColSetBase::remove(nums, n[, perm]) read the loop bound after the removal: survivors kept another entry\'s sides/objective')
+fixed(['C19'], 'd2fc64d', 'ClassSet copy constructor copied thenum instead of thesize items')
+fixed(['C19'], 'a2714da', 'ClassSet::reMax(newmax < max()) heap-buffer-overflow (also via SVSet/LPRowSet/LPColSet::reMax(0))')
+fixed(['C19'], '5a409df', 'IdxSet::remove(n, m) overwrote idx[n-1] (idx[-1] for n == 0) when nothing follows the range')
+fixed(['C19'], '749abce', 'DataArray::reMax(newMax < size()) left max() < size()')
+fixed(['C19'], 'aa5f76f', 'SVectorBase = SSVectorBase (and DSVector(SSVector), DSVector = SSVector) always empty')
+fixed(['C19'], 'fb8c172', 'SSVectorBase::assign2productShort wrote idx[dim] once the intermediate result was dense')
+
 # ------------------------------------------------------------------ open findings
 UND = r'(ABORT_CYCLING|RUNNING|UNKNOWN|ERROR|SINGULAR)'
 # --- simplex core
@@ -63,8 +94,8 @@ open_(['C06'], r'resolve\.status\.OPTIMAL:.*',
       repro='history: min, solve, setIntParam(OBJSENSE,max), changeRangeReal(vec) making the only row free, optimize -> OPTIMAL 150 (LP is unbounded)')
 open_(['C06'], r'(basis\.bind\.after\.remove.*|exception\.remove.*Invalid.*)',
       'after removing rows while the LP is loaded with a basis, getBasisInd() reads stale basis ids (wrong indices or SPxException "Invalid index") although hasBasis() stays true', regex=True)
-open_(['C05'], r'.*\.rep=row\..*',
-      'row representation: getBasisInverseRowReal/ColReal/TimesVecReal, multBasis, multBasisTranspose return wrong values (multBasis accumulates into a DSVector with duplicate indices and adds scaled and unscaled columns; getBasisInverseColReal drops an spxLdexp result) - upstream "@todo does not work correctly"', regex=True)
+open_(['C05'], r'(mult\.(value|nonfinite)\.rep=row\.(scaled|unscaled)(\.internal)?|(invcol|solve)\.(residual|nonfinite)\.rep=row\.scaled(\.internal)?):.*',
+      'row representation: multBasis returns wrong values with and without scaling (accumulates into a DSVector with duplicate indices, adds scaled and unscaled columns), and on a scaled LP getBasisInverseColReal (drops an spxLdexp result) and getBasisInverseTimesVecReal are wrong - upstream "@todo does not work correctly"; the other queries of the row representation are judged normally', regex=True)
 open_(['C05'], r'crash:.*(getBasisInverseColReal|getBasisInverseRowReal|getRowScaleExp).*',
       'row representation: getBasisInverseColReal indexes the scale-exponent array with a basis index (heap-buffer-overflow / use-after-free)', regex=True)
 open_(['C05'], r'crash:(nonrepro-)?signal:SIG(SEGV|ABRT|FPE|BUS):.*', 'row representation: the out-of-bounds writes of getBasisInverseColReal corrupt the heap of the non-sanitized volume build; the process dies later at an unrelated place (not reproducible per case)', regex=True)
